@@ -40,6 +40,7 @@ type AVal struct {
 	Idx   int
 	IsNil int // interface / pointer / error values: 1 nil, -1 non-nil, 0 unknown
 	Dyn   *AVal
+	Own   string // KAddr of a field: "pkg.Type" of the struct the field belongs to
 }
 
 // State is the abstract state at a program point.
@@ -103,7 +104,15 @@ type Analyzer struct {
 	// value and the values flowing in over the back edges (all in terms of the header symbols)
 	LoopPhis []LoopPhi
 	Trace    bool
+	// Invariant supplies the value of a field that an object invariant determines (write-once fields
+	// established by the constructor): owner is "pkg.Type", obj the abstract object. It may add facts to st.
+	Invariant func(a *Analyzer, st *State, owner, field, obj string) (AVal, bool)
+	// EntryAssume may add facts about the arguments of an entry function (documented preconditions).
+	EntryAssume func(a *Analyzer, st *State, fn *ssa.Function, args []AVal)
 }
+
+// Add appends facts to a state (for Invariant callbacks).
+func (s *State) Add(is ...Ineq) { s.add(is...) }
 
 // AllocSite is a make([]T, n) encountered.
 type AllocSite struct {
@@ -227,6 +236,9 @@ func (a *Analyzer) Run(fn *ssa.Function) {
 		args = append(args, a.freshOf(st, p.Type(), p.Name()))
 	}
 	a.EntryArgs = args
+	if a.EntryAssume != nil {
+		a.EntryAssume(a, st, fn, args)
+	}
 	a.EntryRets = a.call(fn, args, st, 0, core.FuncName(fn), true)
 }
 
@@ -408,7 +420,7 @@ func rpo(fn *ssa.Function) []*ssa.BasicBlock {
 // templates: candidate facts about a merged / loop-carried integer v.
 func (in *inst) templates() []string {
 	// "gem1": the index of a range loop starts at -1 and is incremented before it is used
-	ts := []string{"ge0", "gem1"}
+	ts := []string{"ge1", "ge0", "gem1"}
 	var ps []string
 	for p := range in.params {
 		ps = append(ps, p)
@@ -429,6 +441,8 @@ func (in *inst) templateHolds(st *State, t string, hv, inc AVal, _ bool) bool {
 			return Proves(st.Facts, GE(inc.Int, Const(0)))
 		case t == "gem1":
 			return Proves(st.Facts, GE(inc.Int, Const(-1)))
+		case t == "ge1":
+			return Proves(st.Facts, GE(inc.Int, Const(1)))
 		case strings.HasPrefix(t, "le:"):
 			if pl, ok := in.params[t[3:]]; ok {
 				return Proves(st.Facts, LE(inc.Int, pl))
@@ -445,6 +459,8 @@ func (in *inst) templateHolds(st *State, t string, hv, inc AVal, _ bool) bool {
 		switch {
 		case t == "ge0", t == "gem1":
 			return true
+		case t == "ge1":
+			return Proves(st.Facts, GE(inc.Len, Const(1)))
 		case strings.HasPrefix(t, "le:"):
 			if pl, ok := in.params[t[3:]]; ok {
 				return Proves(st.Facts, LE(inc.Len, pl))
@@ -469,6 +485,8 @@ func (in *inst) assumeTemplate(st *State, t string, v AVal) {
 		st.add(GE(x, Const(0)))
 	case t == "gem1":
 		st.add(GE(x, Const(-1)))
+	case t == "ge1":
+		st.add(GE(x, Const(1)))
 	case strings.HasPrefix(t, "le:"):
 		if pl, ok := in.params[t[3:]]; ok {
 			st.add(LE(x, pl))
@@ -650,6 +668,66 @@ func (in *inst) merge(b *ssa.BasicBlock, preds []*State, predBlocks []*ssa.Basic
 		for t, ok := range holds {
 			if ok {
 				in.assumeTemplate(st, t, v)
+			}
+		}
+		// min / max joins (`if a > b { a = b }`): bounds of the merged value by the incoming expressions and by
+		// the symbols they mention, kept when they hold on every incoming edge
+		if v.Kind == KInt {
+			type inc struct {
+				st *State
+				l  Lin
+			}
+			var incs []inc
+			allInt := true
+			for i, pb := range b.Preds {
+				for j, q := range predBlocks {
+					if q == pb {
+						x := in.val(preds[j], ph.Edges[i])
+						if x.Kind != KInt {
+							allInt = false
+						}
+						incs = append(incs, inc{preds[j], x.Int})
+					}
+				}
+			}
+			if allInt && len(incs) >= 2 && len(incs) <= 4 {
+				var cands []Lin
+				seenC := map[string]bool{}
+				addC := func(l Lin) {
+					k := l.String()
+					if !seenC[k] && len(cands) < 10 {
+						seenC[k] = true
+						cands = append(cands, l)
+					}
+				}
+				for _, x := range incs {
+					addC(x.l)
+					var syms []string
+					for sname := range x.l.T {
+						syms = append(syms, sname)
+					}
+					sort.Strings(syms)
+					for _, sname := range syms {
+						addC(Sym(sname))
+					}
+				}
+				for _, cnd := range cands {
+					le, ge := true, true
+					for _, x := range incs {
+						if le && !Proves(x.st.Facts, LE(x.l, cnd)) {
+							le = false
+						}
+						if ge && !Proves(x.st.Facts, GE(x.l, cnd)) {
+							ge = false
+						}
+					}
+					if le {
+						st.add(LE(v.Int, cnd))
+					}
+					if ge {
+						st.add(GE(v.Int, cnd))
+					}
+				}
 			}
 		}
 		// constant range
@@ -946,6 +1024,17 @@ func (in *inst) load(st *State, addr AVal, t types.Type, name string) AVal {
 		return in.a.freshOf(st, t, name)
 	}
 	k := heapKey(addr.Obj, addr.Path)
+	if in.a.Invariant != nil && addr.Own != "" {
+		field := addr.Path
+		if i := strings.LastIndex(field, "."); i >= 0 {
+			field = field[i+1:]
+		}
+		// the object is identified by the path up to the field
+		obj := addr.Obj + "|" + strings.TrimSuffix(addr.Path, field)
+		if v, ok := in.a.Invariant(in.a, st, addr.Own, field, obj); ok {
+			return v
+		}
+	}
 	if v, ok := st.Heap[k]; ok {
 		return v
 	}
@@ -1005,12 +1094,16 @@ func (in *inst) instr(st *State, ins ssa.Instruction) {
 		if stt != nil {
 			name = stt.Field(x.Field).Name()
 		}
+		own := ""
+		if _, named := structOf(x.X.Type()); named != nil && named.Obj().Pkg() != nil {
+			own = named.Obj().Pkg().Name() + "." + named.Obj().Name()
+		}
 		if base.Kind == KAddr {
 			p := name
 			if base.Path != "" {
 				p = base.Path + "." + name
 			}
-			in.env[x] = AVal{Kind: KAddr, Obj: base.Obj, Path: p}
+			in.env[x] = AVal{Kind: KAddr, Obj: base.Obj, Path: p, Own: own}
 		} else {
 			in.env[x] = AVal{Kind: KAddr, Obj: in.a.fresh("obj:" + x.Name())}
 		}
@@ -1166,9 +1259,9 @@ func (in *inst) binop(st *State, x *ssa.BinOp) AVal {
 			return narrow(b.Int.Scale(a.Int.K))
 		}
 	case token.AND:
-		// x & m with a non-negative constant mask lies in [0, m]
+		// x & m with a non-negative mask (constant or provably >= 0) lies in [0, m]
 		for _, m := range []AVal{b, a} {
-			if m.Int.IsConst() && m.Int.K.Sign() >= 0 {
+			if m.Int.IsConst() && m.Int.K.Sign() >= 0 || !m.Int.IsConst() && Proves(st.Facts, GE(m.Int, Const(0))) {
 				v := in.a.freshInt(st, x.Type(), x.Name())
 				st.add(GE(v.Int, Const(0)), LE(v.Int, m.Int))
 				return v
